@@ -1,2 +1,94 @@
-(* Props/C21.v — property theorems only. *)
-From Verif Require Import Base.Str Expand.Param Proofs.ParamProofs.
+(* Props/C21.v — property theorems only.
+   Model: Expand/Param.v (param_exp = Config.paramExp on the modelled fragment);
+   Spec: Expand/ParamSpec.v (the bash manual's rule per operator).
+   upper/lower/quote are unicode.ToUpper/ToLower and syntax.Quote: arbitrary functions here.
+
+   Not proved (by search and code leg only): C21_remove / C21_replace / C21_case (the matcher
+   theory: backtracking leftmost-first = shortest/longest split) and C21_elementwise; see notes/C21.md. *)
+From Verif Require Import Base.Str Expand.Param Expand.ParamSpec Proofs.ParamProofs.
+Open Scope N_scope.
+
+(* the 8 x 3 matrix: for every state of the parameter (unset / null / non-null) and each of
+   :- - := = :? ? :+ + the model yields what the manual says *)
+Theorem C21_defaults : forall upper lower quote e name i op w v,
+  is_params_name name = false ->
+  is_list_idx i = false ->
+  is_default_op op = true ->
+  bash_value (env_get e name) i = PVal v ->
+  assign_scope op i (env_get e name) = true ->
+  param_exp upper lower quote e (mkP name i (PExp op w)) = bash_default op name v (literal_of w).
+Proof. exact defaults_correct. Qed.
+Print Assumptions C21_defaults.
+
+Theorem C21_length : forall upper lower quote e name i v,
+  is_params_name name = false ->
+  is_list_idx i = false ->
+  bash_value (env_get e name) i = PVal v ->
+  param_exp upper lower quote e (mkP name i PLength) = OOk (bash_length v, None).
+Proof. exact length_correct. Qed.
+Print Assumptions C21_length.
+
+(* all offsets and lengths, negative ones included; characters, not bytes (strings are rune lists) *)
+Theorem C21_substring : forall upper lower quote e name i off len v,
+  is_params_name name = false ->
+  is_list_idx i = false ->
+  bash_value (env_get e name) i = PVal v ->
+  param_exp upper lower quote e (mkP name i (PSlice off len)) = lift (bash_substring v off len).
+Proof. exact substring_correct. Qed.
+Print Assumptions C21_substring.
+
+(* @Q is syntax.Quote (C13), i.e. the documented difference is inside [quote] *)
+Theorem C21_transform : forall upper lower quote e name i k v,
+  is_params_name name = false ->
+  is_list_idx i = false ->
+  bash_value (env_get e name) i = PVal v ->
+  In k [81; 85; 117; 76] ->
+  param_exp upper lower quote e (mkP name i (PExp OtherOp [WLit [k]])) =
+  OOk (bash_transform upper lower quote k v, None).
+Proof. exact transform_correct. Qed.
+Print Assumptions C21_transform.
+
+(* full statement: forall e name v, bash_value (env_get e name) INone = PVal v ->
+     param_exp e (mkP name INone PExcl) = lift (bash_indirect e v).
+   Refuted on the pinned tree by the classes indirect_invalid_name (empty value) and
+   indirect_to_assoc; proved outside them for plain scalars. *)
+Theorem C21_indirect : forall upper lower quote e name v,
+  is_params_name name = false ->
+  plain_scalar (env_get e name) = true ->
+  bash_value (env_get e name) INone = PVal v ->
+  v <> Some [] ->
+  not_assoc (env_get e (cur v)) = true ->
+  param_exp upper lower quote e (mkP name INone PExcl) = lift (bash_indirect e v).
+Proof. exact indirect_correct. Qed.
+Print Assumptions C21_indirect.
+
+Theorem C21_indirect_refuted : exists e name v,
+  bash_value (env_get e name) INone = PVal v /\
+  param_exp (fun c => c) (fun c => c) (fun s => s) e (mkP name INone PExcl)
+  <> lift (bash_indirect e v).
+Proof.
+  exists [([114], VStr [])], [114], (Some []). split; [reflexivity|]. vm_compute. discriminate.
+Qed.
+Print Assumptions C21_indirect_refuted.
+
+(* the model reproduces known finding default_op_on_list_subject: "${*+x}" with $1=a $2=b is "a b" *)
+Example C21_default_on_list_refuted :
+  expand_word (fun c => c) (fun c => c) (fun s => s)
+            [([42], VIdx [[97]; [98]] None)] (mkP [42] INone (PExp AltUnset [WLit [120]])) true
+  = OOk ([[97; 32; 98]], None).
+Proof. vm_compute. reflexivity. Qed.
+
+(* non-vacuity: the hypotheses are satisfiable by non-trivial inputs *)
+Example C21_defaults_nonvacuous :
+  let e := [([118], VIdx [[97]; []] (Some [2%Z; 5%Z]))] in
+  bash_value (env_get e [118]) (INum (-1)%Z) = PVal (Some []) /\
+  param_exp (fun c => c) (fun c => c) (fun s => s) e (mkP [118] (INum (-1)%Z) (PExp DefUnsetOrNull [WLit [120]; WQuo [42]]))
+  = OOk ([120; 42], None).
+Proof. split; vm_compute; reflexivity. Qed.
+
+Example C21_substring_nonvacuous :
+  param_exp (fun c => c) (fun c => c) (fun s => s) [([118], VStr [104; 233; 108; 108; 111])]
+            (mkP [118] INone (PSlice (Some (-4)%Z) (Some (-1)%Z)))
+  = OOk ([233; 108; 108], None)
+  /\ bash_substring (Some [97; 98; 99]) (Some 2%Z) (Some (-2)%Z) = OErr 4.
+Proof. split; vm_compute; reflexivity. Qed.
